@@ -140,6 +140,11 @@ func c16SessionEntry(r *rand.Rand, toks []string) (text string, lines int, comme
 	return sb.String(), lines, commented
 }
 
+type c16Discard struct{}
+
+func (c16Discard) Write(p []byte) (int, error) { return len(p), nil }
+func (c16Discard) Close() error                { return nil }
+
 func c16Session(c *fw.Ctx, r *rand.Rand, id string) {
 	n := 2 + r.Intn(5)
 	var vals []*canon.Node
@@ -173,13 +178,17 @@ func c16Session(c *fw.Ctx, r *rand.Rand, id string) {
 		home := fmt.Sprintf("%s/c16-home-%d", c.WorkDir, c.Shard)
 		os.MkdirAll(home, 0o755)
 		os.Setenv("HOME", home)
-		oldStdin, oldStdout := readline.Stdin, os.Stdout
+		oldStdin, oldStdout, oldRlOut, oldRlErr := readline.Stdin, os.Stdout, readline.Stdout, readline.Stderr
 		pr, pw, err := os.Pipe()
 		if err != nil {
 			panic(err)
 		}
 		readline.Stdin = io.NopCloser(strings.NewReader(input.String()))
+		// results are observed wherever the REPL writes them: the process's standard output or readline's own writer;
+		// prompts and echoes (readline's stderr side) are discarded
 		os.Stdout = pw
+		readline.Stdout = pw
+		readline.Stderr = c16Discard{}
 		printed := make(chan string, 1)
 		go func() { b, _ := io.ReadAll(pr); printed <- string(b) }()
 		done := make(chan error, 1)
@@ -192,7 +201,7 @@ func c16Session(c *fw.Ctx, r *rand.Rand, id string) {
 			returned = false
 		}
 		pw.Close()
-		readline.Stdin, os.Stdout = oldStdin, oldStdout
+		readline.Stdin, os.Stdout, readline.Stdout, readline.Stderr = oldStdin, oldStdout, oldRlOut, oldRlErr
 		out := <-printed
 		pr.Close()
 		c.Count("repl_sessions", 1)
